@@ -381,6 +381,26 @@ ADDED_B17 = {
 for _k, _v in ADDED_B17.items():
     CLAIMED[_k]["text"] = CLAIMED[_k]["text"] + " " + _v
 
+ADDED_B18 = {
+    "C01": "Added after the eighteenth batch: C01.30 (= C05.18) the inclusion of two custom formats is a set inclusion of their brands, never a positional comparison.",
+    "C02": "Added after the eighteenth batch: C02.25 (= C16.13) no schema() method assigns a field of the printing context; C02.26 the null-branch remover of the post-processing module answers `null` on the bare test `kept.length === all.length` (ObjectRuntype.schema reads any other answer as `nullable` and drops the property from `required`).",
+    "C03": "Added after the eighteenth batch: C03.25 no validate() method assigns or updates a field of its context parameter (parse re-validates every union branch with one context).",
+    "C04": "Added after the eighteenth batch: C04.15 the visitor that discovers the buildParsers call overrides no visit_* method with an empty body.",
+    "C05": "Added after the eighteenth batch: C05.18 custom formats compare as brand sets; C05.19 (= C07.19) the converter's Ref arm never answers a reference with an unknown / never constant.",
+    "C06": "Added after the eighteenth batch: C06.10 the inclusion test of two template-literal types never answers in a catch-all arm (string-table entries stay nested or disjoint).",
+    "C07": "Added after the eighteenth batch: C07.19 a reference the converter cannot resolve is an error, never an approximation (an approximation is sound in one polarity only; Exclude's post-pass negates).",
+    "C08": "Added after the eighteenth batch: C08.20 (= C13.16) hash256 methods outside the reference classes do not test a child with instanceof <reference / union / intersection class> and do not resolve references themselves.",
+    "C09": "Added after the eighteenth batch: C09.24 inside a loop over the `export *` list of a module there is no explicit `return None` / `break` (the search is ended only by a hit).",
+    "C10": "Added after the eighteenth batch: C10.1 accepts a sort BY KEY of a Vec filled in hash order only when the key closure reads a reviewed unique key (tables/c10_unique_sort_keys.json); a plain sort of an Ord element stays accepted.",
+    "C11": "Added after the eighteenth batch: C11.11 (= C04.12 lifted) the cases of a discriminated union's dispatch table declare the discriminator, narrowed to the case's key.",
+    "C12": "Added after the eighteenth batch: C12.16 an assignment to the report context's path has an array literal or a local saved from ctx.path on its right-hand side, never instance state.",
+    "C13": "Added after the eighteenth batch: C13.15 every table of the digest context that a hash256 method adds to is also removed from in the same method (path bookkeeping only); C13.16 (= C08.20) hash256 is structure-directed.",
+    "C15": "Added after the eighteenth batch: C15.20 the flat variant list handed to the discriminated-union class is copied out of the variant set by copying adaptors only.",
+    "C16": "Added after the eighteenth batch: C16.13 no schema() method assigns a field of the printing context (no position state can leak into a stored definition).",
+}
+for _k, _v in ADDED_B18.items():
+    CLAIMED[_k]["text"] = CLAIMED[_k]["text"] + " " + _v
+
 NOT_APPLICABLE_REASON = {}
 
 
